@@ -41,6 +41,7 @@ import (
 	"github.com/IrineSistiana/mosproxy/internal/upstream"
 	"github.com/IrineSistiana/mosproxy/internal/utils"
 	"github.com/IrineSistiana/mosproxy/verif/internal/gen"
+	"github.com/IrineSistiana/mosproxy/verif/internal/scripted"
 	"golang.org/x/net/ipv4"
 	"golang.org/x/net/ipv6"
 )
@@ -890,3 +891,80 @@ func c17DoSNI(c *Ctx, x c17Cell, cert tls.Certificate) {
 }
 
 func c17NullLogger() *log.Logger { return log.New(io.Discard, "", 0) }
+
+// c17Fallback: a udp upstream makes two kinds of connections - the UDP socket and, after a
+// truncated reply, a TCP connection. Both go to dial_addr when one is configured, whatever the URL
+// host says. The server (at dial_addr) truncates every UDP reply; Control records every dial.
+func c17Fallback(c *Ctx) {
+	e, err := c16NewEnv("listen")
+	if err != nil {
+		c.Inconclusive("C17 fallback setup: " + err.Error())
+		return
+	}
+	defer e.close()
+	real := fmt.Sprintf("127.0.0.1:%d", e.port)
+	forms := []struct{ addr, dial string }{
+		{"udp://127.8.9.10:5353", real},
+		{"127.8.9.10", real},
+		{"udp://dns.verif.test", real},
+		{"udp://[2001:db8::1]:99", real},
+		{"udp://localhost:7", real},
+		{"udp://" + real, ""},
+		{real, ""},
+	}
+	for fi, f := range forms {
+		var mu sync.Mutex
+		var dials []c17Dial
+		ctrl := func(network, address string, _ syscall.RawConn) error {
+			mu.Lock()
+			dials = append(dials, c17Dial{network, address})
+			mu.Unlock()
+			return nil
+		}
+		u, err := upstream.NewUpstream(f.addr, upstream.Opt{DialAddr: f.dial, Control: ctrl})
+		cs := map[string]any{"fn": "c17Fallback", "upstream_addr": f.addr, "dial_addr": f.dial, "server": real}
+		if err != nil {
+			c.Violation("fallback:new-upstream-error", fmt.Sprintf("NewUpstream(%q, dial_addr %q): %v", f.addr, f.dial, err), cs)
+			continue
+		}
+		okT := 0
+		for k := 0; k < 3; k++ {
+			ex := &c16Ex{I: 900000 + fi*10 + k, UDP: "tc", TCP: "ok", Name: fmt.Sprintf("fb%dk%d.c17.test.", fi, k), QType: 1, QClass: 1, CallerID: uint16(fi*10 + k)}
+			e.mu.Lock()
+			e.scripts[ex.Name] = ex
+			e.mu.Unlock()
+			ctx, cancel := context.WithTimeout(context.Background(), 2*time.Second)
+			m, err := u.ExchangeContext(ctx, scripted.BuildQuery(ex.CallerID, ex.Name, 1, 1))
+			cancel()
+			c.Ev.Eval(1)
+			if err == nil && m != nil {
+				if _, leg, ok := upNonce(m); ok && leg == 'T' {
+					okT++
+				}
+				dnsmsg.ReleaseMsg(m)
+			}
+		}
+		u.Close()
+		mu.Lock()
+		got := append([]c17Dial{}, dials...)
+		mu.Unlock()
+		cs["observed_dials"] = got
+		bad := ""
+		nets := map[string]bool{}
+		for _, d := range got {
+			nets[d.Network[:3]] = true
+			if d.Address != real {
+				bad = fmt.Sprintf("%s connection to %s", d.Network, d.Address)
+			}
+		}
+		switch {
+		case bad != "":
+			c.Violation("fallback:dial-addr-ignored:"+bad[:3], fmt.Sprintf("udp upstream %q with dial_addr %q: %s (every connection, the TCP retry of a truncated reply included, must go to %s)", f.addr, f.dial, bad, real), cs)
+		case okT < 3 || !nets["udp"] || !nets["tcp"]:
+			c.Violation("fallback:tcp-retry-not-at-dial-addr", fmt.Sprintf("udp upstream %q with dial_addr %q: %d of 3 truncated replies were answered over TCP by the server at %s (dials seen: %v)", f.addr, f.dial, okT, real, got), cs)
+		default:
+			c.Ev.Distinct("udp-fallback-dial", f.addr != real && f.addr != "udp://"+real, f.dial != "")
+			c.Ev.Count("udp_fallback_forms_checked", 1)
+		}
+	}
+}
